@@ -132,6 +132,15 @@ pub fn order_grammar(max: usize) -> (Grammar, usize) {
             E::Bin(o, b(l), b(r))
         }));
     }
+    // the remaining testing constructs: ^^ evaluates both operands, !! and ?? their one operand
+    g.add(X, 1, vec![X, X], Box::new(|mut v| {
+        let l = v.remove(0);
+        let r = v.remove(0);
+        E::Bin(BinOp::Xor, b(l), b(r))
+    }));
+    for p in [PreOp::Not, PreOp::Tis] {
+        g.add(X, 1, vec![X], Box::new(move |mut v| E::Pre(p, b(v.remove(0)))));
+    }
     for k in [CondKind::IfTrue, CondKind::IfFalse] {
         g.add(X, 1, vec![X, X], Box::new(move |mut v| {
             let c = v.remove(0);
@@ -189,8 +198,8 @@ fn order(tier: Tier) -> &'static Order {
         Order { g, nt, total }
     };
     match tier {
-        Tier::Quick => Q.get_or_init(|| mk(9)),
-        Tier::Thorough => T.get_or_init(|| mk(11)),
+        Tier::Quick => Q.get_or_init(|| mk(7)),
+        Tier::Thorough => T.get_or_init(|| mk(9)),
     }
 }
 
@@ -205,6 +214,7 @@ pub fn name_leaves(e: &mut E, next: &mut usize) {
             name_leaves(l, next);
             name_leaves(r, next);
         }
+        E::Pre(_, x) | E::Group(x) => name_leaves(x, next),
         E::Cond(arms, d) => {
             for (_, c, a) in arms {
                 name_leaves(c, next);
@@ -346,7 +356,7 @@ impl Property for C10 {
     }
     fn meta(&self, tier: Tier) -> Meta {
         Meta {
-            rule: format!("(a) {} representative values covering all 19 value types (empty and non-empty, zero, NaN, pair/list/concatenation of falses, the text \"$!\") as the tested value x {} testing programs over ?> !> && || ^^ !! ?? in both operand positions x both implementations: false iff unit or $!, boolean results only; (b) every derivation of the grammar {{&&, ||, ?>, !>, with default, two- and three-arm else-chains}} with up to {} AST nodes ({} programs) whose leaves are distinct identifiers, under every truthy/falsy assignment (truthy: number or text, falsy: $! or unit), recording host: the sequence of resolve callbacks and the final value equal the reference evaluator's. Non-trivial: a passing truth cell / an order program; distinct by (implementation, value, construct) / enumeration index.", representatives().len(), constructs().len(), tier.pick(9, 11), order(tier).total),
+            rule: format!("(a) {} representative values covering all 19 value types (empty and non-empty, zero, NaN, pair/list/concatenation of falses, the text \"$!\") as the tested value x {} testing programs over ?> !> && || ^^ !! ?? in both operand positions x both implementations: false iff unit or $!, boolean results only; (b) every derivation of the grammar {{&&, ||, ^^, !!, ??, ?>, !>, with default, two- and three-arm else-chains}} with up to {} AST nodes ({} programs) whose leaves are distinct identifiers, under every truthy/falsy assignment (truthy: number or text, falsy: $! or unit), recording host: the sequence of resolve callbacks and the final value equal the reference evaluator's. Non-trivial: a passing truth cell / an order program; distinct by (implementation, value, construct) / enumeration index.", representatives().len(), constructs().len(), tier.pick(7, 9), order(tier).total),
             assumptions: vec![
                 "what was evaluated is observed through the host's resolve callback (one identifier per leaf)".into(),
                 "a run that fails after its call log matched (else-chain without default and no match - recorded under C01/C06) is counted, not reported here".into(),
